@@ -200,11 +200,14 @@ func (b *Batcher) work() {
 	t := time.Now()
 	data := WorkerData(nil)
 	for batch := range b.fullBatches {
+		verifTrace(vtBatchTake, b, batch.seq, 0, 0, 0)
 		b.workersInProgress.Inc()
 
 		if batch.hasIterableEvents {
 			now := time.Now()
+			verifTrace(vtBatchOutBegin, b, batch.seq, int64(len(batch.events)), 0, 0)
 			b.opts.OutFn(&data, batch)
+			verifTrace(vtBatchOutEnd, b, batch.seq, int64(len(batch.events)), int64(batch.status), 0)
 			b.batchOutFnSeconds.Observe(time.Since(now).Seconds())
 		}
 
@@ -241,11 +244,13 @@ func (b *Batcher) commitBatch(batch *Batch) BatchStatus {
 
 	now := time.Now()
 	// let's restore the sequence of batches to make sure input will commit offsets incrementally
+	verifGate(vgBatchBeforeCommitWait, b)
 	b.seqMu.Lock()
 	for b.commitSeq != batchSeq {
 		b.cond.Wait()
 	}
 	b.commitSeq++
+	verifTrace(vtBatchCommitBegin, b, batchSeq, int64(len(batch.events)), 0, 0)
 	b.commitWaitingSeconds.Observe(time.Since(now).Seconds())
 
 	for i := range batch.events {
@@ -254,6 +259,7 @@ func (b *Batcher) commitBatch(batch *Batch) BatchStatus {
 	}
 
 	status := batch.status
+	verifTrace(vtBatchCommitEnd, b, batchSeq, int64(status), 0, 0)
 	b.freeBatches <- batch
 	b.cond.Broadcast()
 	b.seqMu.Unlock()
@@ -269,6 +275,7 @@ func (b *Batcher) heartbeat() {
 			return
 		}
 
+		verifTrace(vtBatchTick, b, 0, 0, 0, 0)
 		batch := b.getBatch()
 		b.trySendBatchAndUnlock(batch)
 
@@ -286,6 +293,7 @@ func (b *Batcher) Add(event *Event) {
 
 	batch := b.getBatch()
 	batch.append(event)
+	verifTrace(vtBatchAdd, b, int64(event.SeqID), int64(event.SourceID), int64(event.Size), int64(event.kind))
 
 	b.trySendBatchAndUnlock(batch)
 }
@@ -293,6 +301,7 @@ func (b *Batcher) Add(event *Event) {
 // trySendBatch mu should be locked, and it'll be unlocked after execution of this function
 func (b *Batcher) trySendBatchAndUnlock(batch *Batch) {
 	if batch.updateStatus() == BatchStatusNotReady {
+		verifTrace(vtBatchNotReady, b, int64(len(batch.events)), int64(batch.eventsSize), int64(time.Since(batch.startTime)), int64(batch.timeout))
 		b.mu.Unlock()
 		return
 	}
@@ -300,8 +309,11 @@ func (b *Batcher) trySendBatchAndUnlock(batch *Batch) {
 	batch.seq = b.outSeq
 	b.outSeq++
 	b.batch = nil
+	verifTrace(vtBatchSeal, b, batch.seq, int64(len(batch.events)), int64(batch.status), int64(batch.eventsSize))
 	b.mu.Unlock()
 
+	verifGate(vgBatchAfterUnlock, b)
+	verifTrace(vtBatchPush, b, batch.seq, 0, 0, 0)
 	b.fullBatches <- batch
 }
 
@@ -309,6 +321,7 @@ func (b *Batcher) getBatch() *Batch {
 	if b.batch == nil {
 		b.batch = <-b.freeBatches
 		b.batch.reset()
+		verifTrace(vtBatchFree, b, 0, 0, 0, 0)
 	}
 	return b.batch
 }
@@ -317,6 +330,7 @@ func (b *Batcher) Stop() {
 	b.mu.Lock()
 	if !b.shouldStop {
 		b.shouldStop = true
+		verifTrace(vtBatchStop, b, 0, 0, 0, 0)
 		close(b.fullBatches)
 	}
 	b.mu.Unlock()
